@@ -83,34 +83,6 @@ theorem leftJoin_regroup (fe : Row n → Bool) (A B : List (Row n)) :
   | true => rw [List.isEmpty_iff] at h; simp [h]
   | false => simp
 
-/-- `remember` with an exact annotation gives back the left solution on the relevant variables -/
-theorem restrict_scope {μ0 μ : Row n} {rel ann must may : List Nat}
-    (hs : scopeOK rel ann must may = true) (hb : BoundsOK μ must may) :
-    ∀ v ∈ rel, ((μ0.merge μ).restrict ann).get v = μ.get v := by
-  intro v hv
-  simp only [scopeOK, List.all_eq_true, Bool.and_eq_true, Bool.or_eq_true, Bool.not_eq_eq_eq_not,
-    Bool.not_true, List.contains_eq_mem, decide_eq_true_eq, decide_eq_false_iff_not] at hs
-  obtain ⟨h1, h2⟩ := hs v hv
-  rw [Row.get_restrict, Row.get_merge]
-  by_cases hann : v ∈ ann
-  · have hm : v ∈ must := by
-      rcases h1 with h | h
-      · exact absurd hann h
-      · exact h
-    have := hb.1 v hm
-    cases hμ : μ.get v with
-    | none => rw [hμ] at this; cases this
-    | some y => simp [hann]
-  · have hnm : v ∉ may := by
-      rcases h2 with h | h
-      · exact h
-      · exact absurd h hann
-    have : μ.get v = none := by
-      cases hμ : μ.get v with
-      | none => rfl
-      | some y => exact absurd (hb.2 v (by simp [hμ])) hnm
-    simp [hann, this]
-
 end RV.C04
 
 namespace RV.C04
